@@ -16,6 +16,17 @@ of the historical streams and every replay file naming one of their indices is u
               one or two bases of the same or the *other* totality, up to three levels; a key is required according to the body
               that declares it (model.td_fields, the documented rule) × position × documents (complete, required keys only,
               one / every required key omitted - inherited or own -, empty, extra key, junk value, no mapping) × both engines.
+  INH_BASE    families of dataclasses related by inheritance (harness/inherit.py: a base class and 1-3 derived classes adding
+              fields; JSONWizard hierarchy or plain dataclasses; both engines) used in one *history*: the classes are loaded in a
+              random order with repeats — base before the first load of a derived class and the other way round — through
+              fromdict / Cls.from_dict / fromlist / Cls.from_list / Cls.from_json, with well-typed documents of that class or of
+              another member of the family, one position possibly replaced by junk.  Every step returns an instance of exactly the
+              class asked for (every field of it, own and inherited, conforming) or raises; Python-object inputs are untouched.
+  DFL_BASE    documents that *lean on declared defaults*, both engines: a well-typed document of a random class model is reduced —
+              at NamedTuple positions (bare, in lists / dict values / tuples / Optional, inside nested classes and TypedDicts) trailing
+              elements whose fields have defaults are cut off, defaulted dataclass keys and not-required TypedDict keys are dropped —
+              and then possibly gets junk at one position.  What the library fills in for the caller must go into the *result*: a
+              conforming instance (or an exception), the caller's dict and every list inside it exactly as they were.
   -O          a sample of the cases of *every* stream (historical junk / near-miss streams included; all of the v1 and TypedDict
               cases, about a third of the others) is loaded again in a child interpreter started with `-O` (assert statements
               compiled away, __debug__ False): harness/optchild.py rebuilds the classes from the class model and applies the
@@ -38,7 +49,13 @@ RULE = ('Enum families (plain, str / int mix-in, IntEnum, StrEnum) × 10 positio
         'grammar (mix-in Enums, user-defined subclasses of date / datetime next to the plain types); Annotated[.., Pattern(fmt)] positions with '
         'Pattern objects shared between positions of different types; the junk stream on the v1 engine (composite fragment, subclasses, '
         'mix-in Enums); TypedDict declarations (one body or inherited from bases of the same / the other totality, Required / NotRequired '
-        'markers; requiredness by the declaring body) × positions × documents omitting required / optional keys × both engines; a sample of '
+        'markers; requiredness by the declaring body) × positions × documents omitting required / optional keys × both engines; families '
+        'of dataclasses related by inheritance (base + 1-3 derived classes adding fields, JSONWizard hierarchy / plain dataclasses, both '
+        'engines) loaded in a random order with repeats (base before derived and derived before base) through fromdict / from_dict / '
+        'fromlist / from_list / from_json with documents of that class or of a relative, one position possibly junk: an instance of '
+        'exactly the class asked for, conforming in every own and inherited field, or an exception; documents leaning on declared '
+        'defaults (trailing defaulted NamedTuple elements cut off at any depth, defaulted dataclass keys and not-required TypedDict keys '
+        'dropped, then possibly junk at one position) on both engines: conforming instance or exception, input untouched; a sample of '
         'the cases of every stream loaded again under `python -O` with the same oracle applied in the child; conforms() is exact-type for '
         'every leaf.')
 
@@ -47,6 +64,8 @@ EXT_BASE = 3_000_000
 PAT_BASE = 4_000_000
 V1_BASE = 5_000_000
 TD_BASE = 6_000_000
+INH_BASE = 7_000_000
+DFL_BASE = 8_000_000
 
 RUN_TAG = ''
 
@@ -419,6 +438,224 @@ def run_typeddict(ctx, c05, reqs, pend):
             built.close()
 
 
+# --------------------------------------------------------------------------- documents leaning on declared defaults
+
+def reduce_doc(rng, doc, t, stats):
+    """`doc` (a well-typed JSON document of type `t`) with parts left to the declared defaults: trailing defaulted NamedTuple
+    elements, defaulted dataclass keys, not-required TypedDict keys.  Still a valid document of `t`."""
+    k = t['k']
+    a = t.get('a', [])
+    if k == 'cls' and isinstance(doc, dict):
+        ftys = dict((n, ft) for n, ft in t['ftys'])
+        out = {}
+        for f in t['info']['fields']:
+            n = f['name']
+            if n not in doc:
+                continue
+            if f.get('dflt') is not None and rng.random() < 0.25:
+                stats['key'] = stats.get('key', 0) + 1
+                continue
+            out[n] = reduce_doc(rng, doc[n], ftys[n], stats)
+        for kk, v in doc.items():          # a tag key and the like
+            if kk not in ftys:
+                out[kk] = v
+        return out
+    if k == 'namedtuple' and isinstance(doc, list):
+        fields = t['fields']
+        req = sum(1 for _n, _ft, d in fields if d is None)
+        vals = [reduce_doc(rng, v, ft, stats) for v, (_n, ft, _d) in zip(doc, fields)]
+        if req < len(vals) and rng.random() < 0.75:
+            vals = vals[:rng.randint(req, len(vals) - 1)]
+            stats['nt'] = stats.get('nt', 0) + 1
+        return vals
+    if k == 'typeddict' and isinstance(doc, dict):
+        spec = {n: (ft, r) for n, ft, r in t['fields']}
+        out = {}
+        for kk, v in doc.items():
+            if kk in spec and not spec[kk][1] and rng.random() < 0.3:
+                stats['td'] = stats.get('td', 0) + 1
+                continue
+            out[kk] = reduce_doc(rng, v, spec[kk][0], stats) if kk in spec else v
+        return out
+    if k in ('list', 'set', 'frozenset', 'deque', 'vtuple') and isinstance(doc, list):
+        return [reduce_doc(rng, v, a[0], stats) for v in doc]
+    if k == 'tuple' and isinstance(doc, list) and len(doc) == len(a):
+        return [reduce_doc(rng, v, m, stats) for v, m in zip(doc, a)]
+    if k in ('dict', 'defaultdict', 'ordereddict') and isinstance(doc, dict):
+        return {kk: reduce_doc(rng, v, a[1], stats) for kk, v in doc.items()}
+    if k == 'optional' and doc is not None:
+        return reduce_doc(rng, doc, a[0], stats)
+    if k == 'annpat':
+        return reduce_doc(rng, doc, a[0], stats)
+    return doc
+
+
+def run_defaults(ctx, c05, reqs, pend):
+    rng = sub_rng(ctx, 'defaults')
+    n = ctx.quick(500, 8000)
+    common = dict(meta_keys=[], meta_prob=0.0, leaves=gen.LEAVES_DEFAULT, allow_tagged_union=False, nt_weight=5, nt_default_prob=0.6,
+                  defaults_prob=0.5, containers=['list', 'deque', 'tuple', 'vtuple', 'dict', 'defaultdict'])
+    o_default = gen.Opts(**common)
+    o_v1 = gen.Opts(py_wizard_prob=0.0, wizard_prob=0.5, allow_union=False, allow_literal=False, **common)
+    for j in range(n):
+        i = DFL_BASE + j
+        if ctx.done(i):
+            break
+        engine = rng.choice(['default', 'v1'])
+        ty = gen.gen_cls(rng, rng.choice([1, 1, 2, 2, 3]), o_v1 if engine == 'v1' else o_default)
+        if engine == 'v1':
+            ty['info']['wizard'] = True
+            ty['info']['meta'] = {'v1': True}
+        try:
+            built = model.Built(ty)
+        except Exception as e:
+            ctx.count('build_error')
+            ctx.notes.setdefault('build_errors', []).append(repr(e)[:200])
+            continue
+        try:
+            x = gen.gen_instance(rng, ty, built, use_defaults_prob=0.0)
+            try:
+                full = json.loads(json.dumps(c05.plain_doc(x, ty, built)))
+            except Exception as e:
+                ctx.count('doc_error')
+                ctx.notes.setdefault('doc_errors', []).append(repr(e)[:200])
+                continue
+            stats = {}
+            doc = reduce_doc(rng, full, ty, stats)
+            if rng.random() < 0.25:
+                path, jv = rng.choice(list(c05.positions(doc))), gen.junk(rng)
+                bad = c05.replace_at(doc, path, copy.deepcopy(jv))
+            else:
+                bad, path, jv = doc, None, None
+            if not ctx.begin_case(i):
+                continue
+            case = {'engine': engine, 'ty': ty, 'doc': repr(bad)[:600], 'left_to_defaults': stats, 'path': repr(path), 'junk': repr(jv)}
+            ctx.seen('defaults', case, nontrivial=bool(stats))
+            for w in stats:
+                ctx.count('defaults:' + w + ':' + engine)
+            out = judge(ctx, c05, 'defaults', case, ty, built, bad, engine, reqs, pend)
+            if out[0] == 'ok' and path is None:
+                ctx.count('defaults:loaded:' + engine)
+        finally:
+            built.close()
+
+
+# --------------------------------------------------------------------------- families related by inheritance, call histories
+
+INH_APIS = ['fromdict', 'fromdict', 'from_dict', 'from_dict', 'fromlist', 'from_list', 'from_json']
+
+
+def inh_load(api, Cls, doc):
+    """-> (callable, the Python object handed to the library or None, result is a list)"""
+    import dataclass_wizard as dw
+    if api == 'fromdict':
+        return (lambda: dw.fromdict(Cls, doc)), doc, False
+    if api == 'from_dict':
+        return (lambda: Cls.from_dict(doc)), doc, False
+    if api in ('fromlist', 'from_list'):
+        docs = [doc, copy.deepcopy(doc)]
+        return ((lambda: dw.fromlist(Cls, docs)) if api == 'fromlist' else (lambda: Cls.from_list(docs))), docs, True
+    text = json.dumps(doc)
+    return (lambda: Cls.from_json(text)), None, False
+
+
+def run_inherit(ctx, c05, reqs, pend):
+    from harness import inherit
+    rng = sub_rng(ctx, 'inherit')
+    n = ctx.quick(220, 3000)
+    o_default = gen.Opts(meta_keys=[], leaves=gen.LEAVES_DEFAULT, meta_prob=0.0, wizard_prob=0.0, py_wizard_prob=0.0, max_fields=3,
+                         allow_tagged_union=False, enum_prob=0.15, enum_mixin_prob=0.5)
+    o_v1 = gen.Opts(meta_keys=[], leaves=gen.LEAVES_DEFAULT, meta_prob=0.0, wizard_prob=0.0, py_wizard_prob=0.0, max_fields=3,
+                    allow_union=False, allow_literal=False, allow_tagged_union=False, enum_prob=0.15, enum_mixin_prob=0.5)
+    for j in range(n):
+        i = INH_BASE + j
+        if ctx.done(i):
+            break
+        engine = rng.choice(['default', 'v1', 'v1'])
+        o = o_v1 if engine == 'v1' else o_default
+        chain, style = inherit.family(rng, lambda: gen.gen_cls(rng, rng.choice([0, 0, 1, 1, 2]), o), {'v1': True} if engine == 'v1' else None)
+        steps = inherit.history(rng, chain)
+        hold = inherit.holder(chain)
+        try:
+            built = model.Built(hold)
+        except Exception as e:
+            ctx.count('build_error')
+            ctx.notes.setdefault('build_errors', []).append(repr(e)[:200])
+            continue
+        try:
+            plan = []
+            for k in steps:
+                # the document: of the class asked for, or of another member of the family (a relative's document holds more /
+                # fewer keys than the class has fields: unknown keys, absent keys)
+                src_k = k if rng.random() < 0.75 else rng.randrange(len(chain))
+                try:
+                    x = gen.gen_instance(rng, chain[src_k], built)
+                    doc = json.loads(json.dumps(c05.plain_doc(x, chain[src_k], built)))
+                except Exception as e:
+                    ctx.count('doc_error')
+                    ctx.notes.setdefault('doc_errors', []).append(repr(e)[:200])
+                    doc = {}
+                if rng.random() < 0.45:
+                    path, jv = rng.choice(list(c05.positions(doc))), gen.junk(rng)
+                    doc = c05.replace_at(doc, path, copy.deepcopy(jv))
+                else:
+                    path, jv = None, None
+                api = rng.choice(INH_APIS)
+                plan.append((k, src_k, doc, path, jv, api))
+            if not ctx.begin_case(i):
+                continue
+            base, order = inherit.describe(chain, steps)
+            base = dict(base, engine=engine, style=style)
+            ctx.seen('inherit-history', dict(base, tys=chain, docs=[repr(p[2])[:200] for p in plan]))
+            ctx.count('inherit-history:' + order)
+            src = dict(src=built.source)
+            for step, (k, src_k, doc, path, jv, api) in enumerate(plan):
+                ty = chain[k]
+                Cls = built.get(ty['info']['name'])
+                if api in ('from_dict', 'from_list', 'from_json') and not hasattr(Cls, api):
+                    api = 'fromdict' if api != 'from_list' else 'fromlist'
+                if not isinstance(doc, dict) and api == 'from_json':
+                    api = 'fromdict'
+                case = dict(base, step=step, cls=ty['info']['name'], api=api, doc_of=chain[src_k]['info']['name'], ty=ty,
+                            doc=repr(doc)[:600], path=repr(path), junk=repr(jv))
+                ctx.seen('inherit', [case['cls'], api, case['doc']], nontrivial=False)
+                call, handed, many = inh_load(api, Cls, doc)
+                before = copy.deepcopy(handed)
+                out = load_outcome(call)
+                pre = f'step {step} of {base["steps"]} ({engine}, {style}, derives_from {base["derives_from"]}): {api} on {case["cls"]}'
+                if handed is not None and not c05.strict_eq(handed, before):
+                    ctx.fail('junk:input-mutated', case, f'{pre} changed its input: before {before!r}, after {handed!r}'[:1500], detail=src)
+                if out[0] == 'ok':
+                    ctx.count('returned')
+                    ys = out[1] if many else [out[1]]
+                    if many and (type(out[1]) is not list or len(ys) != 2):
+                        ctx.fail('inherit:nonconforming', case, f'{pre}: a list of 2 documents gave {out[1]!r}'[:1500], detail=src)
+                        continue
+                    for y in ys:
+                        try:
+                            okc = c05.conforms(y, ty, built)
+                        except Exception:
+                            okc = False
+                        if not okc:
+                            what = f'{pre}({doc!r}) returned a non-conforming object {y!r}'
+                            if type(y) is not Cls:
+                                what = f'{pre}({doc!r}) returned an instance of {type(y).__name__}, not of {case["cls"]}: {y!r}'
+                            ctx.fail('inherit:nonconforming', case, what[:1500], key=c05._known(y, ty, built) if type(y) is Cls else None, detail=src)
+                            break
+                else:
+                    ctx.count('raised:' + type(out[1]).__name__)
+                if not many and api != 'from_json' and not has_kind(ty, ('sub', 'annpat')):
+                    st = model.StdTables()
+                    st.add_json(doc)
+                    try:
+                        reqs.append({'op': 'load' if engine == 'default' else 'loadv1', 'ty': model.enc_ty(ty), 'doc': model.enc_j(doc), 'std': st.build()})
+                        pend.append(('inherit', case, out, built, engine))
+                    except TypeError:
+                        ctx.count('not_encodable')
+        finally:
+            built.close()
+
+
 # --------------------------------------------------------------------------- the same cases under `python -O`
 
 def run_optimized(ctx, c05, flags=('-O',), min_optimize=1):
@@ -471,6 +708,8 @@ def run(ctx, c05):
     run_patterned(ctx, c05, reqs, pend)
     run_v1(ctx, c05, reqs, pend)
     run_typeddict(ctx, c05, reqs, pend)
+    run_inherit(ctx, c05, reqs, pend)
+    run_defaults(ctx, c05, reqs, pend)
     run_optimized(ctx, c05)
     if ctx.model_available:
         outs = ctx.driver.run(reqs)
